@@ -276,7 +276,14 @@ fn dryoc_mlock(data: &[u8]) -> Result<(), std::io::Error> {
         let ret = unsafe { c_mlock(data.as_ptr() as *const c_void, data.len()) };
         match ret {
             0 => Ok(()),
-            _ => Err(std::io::Error::last_os_error()),
+            _ => {
+                let err = std::io::Error::last_os_error();
+                // a failed mlock() can leave the range marked as locked (e.g. when
+                // the pages cannot be faulted in), so roll it back before
+                // reporting the error
+                dryoc_munlock(data).ok();
+                Err(err)
+            }
         }
     }
     #[cfg(windows)]
